@@ -30,7 +30,7 @@ CFG_TIMEOUT = {'quick': 300, 'thorough': 1200}
 
 def configs(tier, seed):
     out = []
-    for cid, rn, sk in funcs.instances(tier):
+    for cid, rn, sk in funcs.instances(tier, harness='C07'):
         r = funcs.fby_name(rn)
         if sk == 'field':
             continue
